@@ -28,14 +28,17 @@ ASSUMPTIONS = [
     "an exponent text with denominator 0 and numerator 0 (m0:0) is outside the domain (not judged)",
     "UNIT_STANDARD/UNIT_PREFIXES are the shipped tables (no UnitEnvironment active during the check)",
 ]
-EXPLANATION = ("theorems: atom parser soundness for every string, completeness and unambiguity from kernel-decided "
-               "table facts F1-F4, rejection corollaries, exponent bookkeeping of * and / equals multiset sums, "
-               "dimension vector = sum e*dim, factor = product (prefix*unit)^e, binary pass = left fold")
+EXPLANATION = ("theorems: atom parser soundness/completeness/unambiguity from kernel-decided table facts; TEXT-level "
+               "expression theorem for every rendering (any blanks) of every unit AST: coefficient and exponents "
+               "(character scan + parenthesis depth counter + passes), dimension vector = sum e*dim, Quantity(1,text) "
+               "= coefficient x product (prefix*unit)^e over R, BaseUnits magnitude (numeric factor dropped: known "
+               "finding with counterexample theorem), render/parse round trip of whole exponent maps, fuel sufficiency")
 EXTRA_OBLIGATIONS = [
     "SciVerif.C03.Facts.C03_fact_F1",
     "SciVerif.C03.Facts.C03_fact_F2",
     "SciVerif.C03.Facts.C03_fact_F3",
     "SciVerif.C03.Facts.C03_fact_F4",
+    "SciVerif.C03.Facts.C03_fact_F7",
     "SciVerif.C03.Facts.C03_fact_unique",
     "SciVerif.C03.Facts.C03_fact_positive",
     "SciVerif.C03.Facts.C03_fact_prefix_definitions",
@@ -307,9 +310,18 @@ def cmp_spec(imp, spec):
     if sd != idm:
         return "dims", "dimension vector %s, sum of e*dim gives %s" % ([str(x) for x in idm], [str(x) for x in sd])
     sv = factors_value(spec["factors"])
-    if not _close(imp["base"]["magnitude"], sv):
-        return "factor", "BaseUnits magnitude %r, product of table entries gives %r" % (imp["base"]["magnitude"], sv)
     tot = float(Q(spec["coef"][0], spec["coef"][1])) * sv
+    dropped = None
+    if not _close(imp["base"]["magnitude"], tot):
+        if _close(imp["base"]["magnitude"], sv):
+            # exactly the numeric factor is missing (known class, see known_findings.d/C03.json); keep
+            # judging the other observables of this input before reporting it
+            dropped = ("numeric-factor-dropped",
+                       "BaseUnits(text).magnitude is %r: the numeric factor %s of the expression is discarded "
+                       "(conversion factor by the tables: %r)" % (imp["base"]["magnitude"],
+                                                                  Q(spec["coef"][0], spec["coef"][1]), tot))
+        else:
+            return "factor", "BaseUnits magnitude %r, product of table entries gives %r" % (imp["base"]["magnitude"], tot)
     q = imp["quantity"]
     if not _close(q["value"] * q["base"]["magnitude"], tot):
         return "factor", "Quantity(1,text) is %r x %r in base units, product of table entries gives %r" % (
@@ -317,7 +329,7 @@ def cmp_spec(imp, spec):
     qd = [Q(x[0], x[1]) if isinstance(x, list) else Q(x) for x in q["base"]["dims"]]
     if qd != sd:
         return "dims", "Quantity dimension vector %s, sum of e*dim gives %s" % ([str(x) for x in qd], [str(x) for x in sd])
-    return None
+    return dropped
 
 
 # ---------------------------------------------------------------- generators
@@ -325,10 +337,10 @@ EXPS_QUICK = ["", "2", "-1", "1:2", "-3:2"]
 EXPS_MORE = ["3", "-2", "2:3", "+2", "4:2", "0", "-1:-2", "12", "1:3", "-5:2", "+1:+2", "03", "1"]
 FOREIGN = list("xkmda 2-:+#.e()*/,[%_'G\tµ"[:-1])   # ASCII only
 CORPUS = ["dam", "xkm", "xm", "mmm", "2m", "-m", "k m", "dag", "dam2", "daar", "dar", "mm", "km", "kkm", "dakm",
-          "kau", "krad", "mrad", "min", "mmin", "cd", "ccd", "mol", "mmol", "Pa", "hPa", "mPa", "Pam", "am", "a",
+          "kau", "krad", "mrad", "min", "mmin", "min-1:-2*s", "Pam", "cd2", "nmi", "cd", "ccd", "mol", "mmol", "Pa", "hPa", "mPa", "Pam", "am", "a",
           "", " ", "()", "(m)", "((m))", "(m", "m)", "(m)(s)", "(m)s", "m(s)", "m**s", "m*", "*m", "m/", "/m",
           "m*s/kg2", "kg*m2/s2", "kg*m2/(s2*A)", "m/(s*(kg/mol))", " m * s ", "( m )", "m /s", "m\t*\ns",
-          "2*m", "m*2", "1e3*m", "1.5e-3*km", "-2*m", "+2*m", "2", "2.", ".5", ".", "1.2.3", "1e", "1e+-3", "1E3",
+          "2*m", "m*2", "60*s", "m/2", "2/m", "(2)*m", "(2*m)/(4*s)", "m*(1e3)", "1*m", "1e3*m", "1.5e-3*km", "-2*m", "+2*m", "2", "2.", ".5", ".", "1.2.3", "1e", "1e+-3", "1E3",
           "m/0", "0*m", "m/0.0", "2m", "m 2", "m2:3", "m2:3:4", "m:2", "m+-2", "m2:", "m2:0", "m0", "m0:5",
           "m4:2", "m1:2*m1:2", "m*m-1", "m/m", "m/cm", "rad", "deg/rad", "%", "ppth*%", "[pi]", "[pi]2", "k[pi]",
           "#SADO", "#SADO2", "#SADO0", "#CENE/#SENE", "#foo", "#foo0", "#Zbar0", "#[euler]0", "# SADO", "k#SADO", "#", "#2", "m*#ALEN-1",
@@ -362,7 +374,7 @@ def render_ast(a):
 
 def gen_leaf(rng, t, pairs):
     r = rng.random()
-    if r < 0.06:
+    if r < 0.09:
         return ["num", rng.choice(["2", "10", "0.5", "1e3", "2.5e-2", "-3", "1.", ".25", "1e+2", "007", "4"])]
     if r < 0.12:
         return ["sys", rng.choice(t["sys"])["sym"], rng.choice(["", "", "2", "-1", "1:2"])]
@@ -411,7 +423,7 @@ _ZERO_DEN = _re.compile(r":[+-]?0+(?![0-9])")
 _LONG_INT = _re.compile(r"[0-9]{15,}")
 
 
-def out_of_domain(text, ans):
+def out_of_domain(text, ans, spec_key="spec"):
     """inputs the property does not talk about (see ASSUMPTIONS)"""
     if any(ord(c) > 126 or (ord(c) < 32 and c not in "\t\n") for c in text):
         return "nonascii"
@@ -424,7 +436,7 @@ def out_of_domain(text, ans):
     for part in (m["base"], m["quantity"], m["quantity"].get("base", {}) if isinstance(m["quantity"], dict) else {}):
         if isinstance(part, dict) and "err" not in part:
             size = max(size, log_size(part.get("coef"), part.get("factors", [])))
-    s = ans.get("spec", {})
+    s = ans.get(spec_key, {})
     if "err" not in s:
         size = max(size, log_size(s.get("coef"), s.get("factors", [])))
     if size > 250:
@@ -440,7 +452,7 @@ def _pieces(text):
 def judge(ctx, stream, text, ans, spec_key="spec", nontrivial=True, ast=None):
     """one input: impl vs model (tie) and impl vs spec (property)"""
     imp = impl_obs(text)
-    ood = out_of_domain(text, ans)
+    ood = out_of_domain(text, ans, spec_key)
     ctx.count("stream." + stream)
     if ood:
         ctx.count("ood." + ood)
@@ -462,6 +474,8 @@ def judge(ctx, stream, text, ans, spec_key="spec", nontrivial=True, ast=None):
         if len(ctx.violations) < 40:
             small = minimize(ctx, text, kind)
         cls = "expr" if _re.search(r"[*/()]", small) else "atom"
+        if kind == "numeric-factor-dropped":
+            cls = "BaseUnits(text)"
         ctx.violation("%s:%s" % (kind, cls), "BaseUnits/Quantity(%r): %s" % (small, what if small == text else
                       explain(ctx, small, kind)), {"text": small, "from": text, "stream": stream})
     return imp
@@ -564,12 +578,16 @@ def ast_stream(ctx, t, count):
         if ans["render"] != text or not ans["leftassoc"]:
             ctx.disagreement("render", {"ast": a}, "python render %r, lean render %r" % (text, ans["render"]))
             continue
-        # the two routes of the specification (AST denotation / grammar on the text) must agree
-        if ans["spec"] != ans["spec_text"]:
+        # the two routes of the specification must agree: a valid AST denotes what the grammar reads from
+        # its text.  (A deliberately invalid leaf can spell a valid text - prefix 'm' + 'in' is the unit
+        # 'min' - so the TEXT is always judged by the grammar, never by the generating AST.)
+        if "err" not in ans["spec"] and ans["spec"] != ans["spec_text"]:
             ctx.disagreement("spec-grammar", {"text": text, "ast": a}, "denote(ast) %s grammar %s" % (
                 json.dumps(ans["spec"])[:200], json.dumps(ans["spec_text"])[:200]))
+        if "err" in ans["spec"] and "err" not in ans["spec_text"]:
+            ctx.count("ast.invalid_leaf_spells_valid_text")
         ctx.count("ast.ops", text.count("*") + text.count("/"))
-        judge(ctx, "ast", text, ans, ast=a)
+        judge(ctx, "ast", text, ans, spec_key="spec_text", ast=a)
     blanks = [with_blanks(ctx.rng, s) for s in texts[: max(50, count // 4)]]
     for text, ans in zip(blanks, ask_texts(ctx, blanks)):
         judge(ctx, "blanks", text, ans)
